@@ -128,6 +128,9 @@ class VarFlow:
         self.alias = ref_aliases(body)
         self.defs = body.defs()
         self.rel = self._relevant_locals(extra_locals)
+        self.cmp_pred = self._comparison_predicates()
+        for b_, (op_, v_, c_) in self.cmp_pred.items():
+            self.rel.add(b_)
         # results
         self.in_states = defaultdict(list)   # bb -> list of states (dict)
         self.events = []                     # (bb, kind, payload, state)
@@ -173,6 +176,94 @@ class VarFlow:
                     rel.add(a); changed = True
         return rel
 
+    def _comparison_predicates(self):
+        """bool local -> (op, value local, constant) for `b = op(value, const)` / `b = op(const, value)` (normalised to value-on-the-left)"""
+        out = {}
+        flip = {"Lt": "Gt", "Le": "Ge", "Gt": "Lt", "Ge": "Le", "Eq": "Eq", "Ne": "Ne"}
+        for bi, si, s in self.body.iter_stmts():
+            rv = s["rv"]
+            if rv["k"] != "binop" or rv["op"] not in flip or s["d"].get("p"):
+                continue
+            a, b = rv["a"], rv["b"]
+
+            def cval(o):
+                if o.get("k") != "const":
+                    return None
+                for k in ("int", "char"):
+                    if k in o:
+                        try:
+                            return int(o[k])
+                        except (TypeError, ValueError):
+                            return None
+                return None
+            ca, cb = cval(a), cval(b)
+
+            def root(l):
+                # `_t = copy _c; Le(const, move _t)`: the predicate is about _c
+                for _ in range(6):
+                    ds = self.defs.get(l, [])
+                    if len(ds) != 1 or ds[0][0] != "stmt" or ds[0][3]["d"].get("p"):
+                        break
+                    r2 = ds[0][3]["rv"]
+                    if r2["k"] != "use":
+                        break
+                    sp = op_place(r2["op"])
+                    if sp is None or sp.get("p"):
+                        break
+                    l = sp["l"]
+                return l
+            if ca is None and cb is not None and op_local(a) is not None and not op_place(a).get("p"):
+                out[s["d"]["l"]] = (rv["op"], root(op_local(a)), cb)
+            elif cb is None and ca is not None and op_local(b) is not None and not op_place(b).get("p"):
+                out[s["d"]["l"]] = (flip[rv["op"]], root(op_local(b)), ca)
+        return out
+
+    FULL = ((-(1 << 63), (1 << 64)),)
+
+    @staticmethod
+    def iv_intersect(ivs, lo, hi):
+        out = []
+        for a, b in ivs:
+            x, y = max(a, lo), min(b, hi)
+            if x <= y:
+                out.append((x, y))
+        return tuple(out)
+
+    @staticmethod
+    def iv_subtract(ivs, lo, hi):
+        out = []
+        for a, b in ivs:
+            if hi < a or lo > b:
+                out.append((a, b))
+                continue
+            if a < lo:
+                out.append((a, lo - 1))
+            if b > hi:
+                out.append((hi + 1, b))
+        return tuple(out)
+
+    def refine_interval(self, st, vlocal, op, c, outcome):
+        """returns new interval tuple for value local after `op(value, c)` evaluated to outcome, or None if infeasible"""
+        key = "_%d#iv" % vlocal
+        cur = st.get(key)
+        ivs = tuple(sorted(cur)) if cur is not None else self.FULL
+        lo, hi = self.FULL[0]
+        if not outcome:
+            op = {"Lt": "Ge", "Le": "Gt", "Gt": "Le", "Ge": "Lt", "Eq": "Ne", "Ne": "Eq"}[op]
+        if op == "Lt":
+            new = self.iv_intersect(ivs, lo, c - 1)
+        elif op == "Le":
+            new = self.iv_intersect(ivs, lo, c)
+        elif op == "Gt":
+            new = self.iv_intersect(ivs, c + 1, hi)
+        elif op == "Ge":
+            new = self.iv_intersect(ivs, c, hi)
+        elif op == "Eq":
+            new = self.iv_intersect(ivs, c, c)
+        else:
+            new = self.iv_subtract(ivs, c, c)
+        return key, new
+
     def canon(self, p):
         return strip_deref_alias(self.body, p, self.alias)
 
@@ -194,7 +285,8 @@ class VarFlow:
 
     def kill(self, st, key):
         for k in list(st.keys()):
-            if k == key or k.startswith(key + ".") or k.startswith(key + " as ") or k.startswith("(*" + key + ")"):
+            if k == key or k.startswith(key + ".") or k.startswith(key + " as ") or k.startswith("(*" + key + ")") \
+                    or k == key + "#iv" or k == key + " !=":
                 del st[k]
 
     def all_variants(self, adt):
@@ -340,6 +432,58 @@ class VarFlow:
                 return
             # plain switch on a bool / int local
             sp = op_place(t["op"])
+            if sp is not None and t.get("ty") == "bool" and not sp.get("p") and sp["l"] in self.cmp_pred:
+                op_, vl_, c_ = self.cmp_pred[sp["l"]]
+                for val, tgt in list(t["targets"]) + [("other", t["otherwise"])]:
+                    if val == "other":
+                        explicit_vals = {v for v, _ in t["targets"]}
+                        outcomes = [o for o in (False, True) if ("1" if o else "0") not in explicit_vals]
+                    else:
+                        outcomes = [val != "0"]
+                    for outcome in outcomes:
+                        k_, new_ = self.refine_interval(st, vl_, op_, c_, outcome)
+                        if not new_:
+                            continue
+                        ns = dict(st)
+                        ns[k_] = frozenset(new_)
+                        ns[self.key(sp)] = frozenset(["true" if outcome else "false"])
+                        yield tgt, ns
+                return
+            if sp is not None and t.get("ty") in ("char", "u8", "u32", "u16", "i64", "usize", "u64", "i32") and not sp.get("p"):
+                # value switch: refine the interval view as well as the singleton view
+                rl = sp["l"]
+                for _ in range(6):
+                    ds_ = self.defs.get(rl, [])
+                    if len(ds_) != 1 or ds_[0][0] != "stmt" or ds_[0][3]["d"].get("p") or ds_[0][3]["rv"]["k"] != "use":
+                        break
+                    sp2 = op_place(ds_[0][3]["rv"]["op"])
+                    if sp2 is None or sp2.get("p"):
+                        break
+                    rl = sp2["l"]
+                kiv = "_%d#iv" % rl
+                cur_iv = tuple(sorted(st[kiv])) if st.get(kiv) is not None else self.FULL
+                rest_iv = cur_iv
+                key = self.key(sp)
+                for val, tgt in t["targets"]:
+                    try:
+                        v = int(val)
+                    except ValueError:
+                        continue
+                    hit = self.iv_intersect(cur_iv, v, v)
+                    rest_iv = self.iv_subtract(rest_iv, v, v)
+                    if hit:
+                        ns = dict(st)
+                        ns[kiv] = frozenset(hit)
+                        ns[key] = frozenset([val])
+                        yield tgt, ns
+                if rest_iv:
+                    ns = dict(st)
+                    ns[kiv] = frozenset(rest_iv)
+                    prev = ns.get(key + " !=", frozenset())
+                    ns[key + " !="] = frozenset(prev | {v for v, _ in t["targets"]})
+                    ns.pop(key, None)
+                    yield t["otherwise"], ns
+                return
             if sp is not None:
                 key = self.key(sp)
                 cur = st.get(key)
